@@ -44,6 +44,13 @@ def arm_target(crate, body):
                     T = None
                     if p and (p.startswith("crate::traits::Message::") or p.startswith("crate::Message::")) and ga:
                         T = gpath(crate, ga[0])
+                    elif p and p.startswith("crate::collective::CollectiveMessage::") and ga:
+                        # protocol-parameterised read: the protocol version handed on must be the caller's own parameter
+                        T = gpath(crate, ga[0])
+                        a = H.call_args(core)
+                        pv = H.local_name(H.strip_refs(H.strip(a[1]))) if len(a) == 2 else None
+                        if pv != "protocol_version":
+                            return None, None, f"the protocol version passed to {p.split('::')[-1]} is `{H.short(a[1], maxlen=60) if len(a) == 2 else '?'}`, not the caller's protocol_version parameter"
                     elif p:
                         T = gpath(crate, p.rsplit("::", 1)[0])
                     return vp, T, p.split("::")[-1] if p else "?"
@@ -137,8 +144,14 @@ def check_enum(ctx, rule, crate, enum_path, reader_names, scope, direction_kinds
             ctx.violate(rule, f"{key0}|opcode-const|{vn}", f"{p['obj'].name}: OPCODE const is {oc['val'] if oc else None}, wowm opcode is {want:#x} ({p['obj'].ast.file}:{p['obj'].ast.line})",
                         oc["file"] if oc else adt["file"], oc["line"] if oc else adt["line"])
     # readers
-    for rn in reader_names:
+    # the protocol-parameterised readers of the collective (latest) opcode enums decide the message from the same opcode table
+    proto = [rn.replace("read", "read_protocol") for rn in reader_names if F.fn(f"{enum_path}::{rn.replace('read', 'read_protocol')}") is not None] if login else []
+    for rn in list(reader_names) + proto:
         fn = F.fn(f"{enum_path}::{rn}")
+        if rn in proto:
+            prm = [q[1] for q in fn["params"] if H.tag(q) == "bind"]
+            if "protocol_version" not in prm:
+                ctx.violate(rule, f"{key0}|{rn}|param", f"{enum_path}::{rn}: no parameter called protocol_version (parameters {prm}) — review", fn["file"], fn["line"])
         if fn is None:
             ctx.violate(rule, f"{key0}|{rn}|missing", f"{enum_path}::{rn} not found (anchor disappeared)")
             continue
